@@ -31,6 +31,16 @@ class Boom(Exception):
     pass
 
 
+class BoomBase(BaseException):
+    """Not an Exception subclass (like GeneratorExit / KeyboardInterrupt / SystemExit): blocks are left the same way."""
+
+
+# what an injected fault or a program `raise` raises, by position: mostly ordinary exceptions, now and then one of the kinds
+# that `except Exception` does not see
+RAISED_KINDS = [Boom, Boom, Boom, KeyboardInterrupt, Boom, GeneratorExit, Boom, SystemExit, Boom, BoomBase]
+LEAVES_BLOCKS = (Boom, BoomBase, KeyboardInterrupt, GeneratorExit, SystemExit)
+
+
 class StrRepr(str):
     """A str subclass that is self-rendering: displayed, it is kept as HTML like every _repr_html_ object."""
 
@@ -293,7 +303,7 @@ class Run:
         self.pos += 1
         if self.pos == self.inject_at:
             self.ctx.count("faults_injected")
-            raise Boom("injected at %d" % self.pos)
+            raise RAISED_KINDS[self.pos % len(RAISED_KINDS)]("injected at %d" % self.pos)
 
     def display(self, vr):
         if vr["k"] == "wrapprev":
@@ -419,7 +429,7 @@ class Run:
             elif k == "block":
                 self.block(st)
             elif k == "raise":
-                raise Boom("program raise")
+                raise RAISED_KINDS[(self.pos * 3 + 1) % len(RAISED_KINDS)]("program raise")
             elif k == "reenter":
                 self.reenter(st)
             elif k == "api":
@@ -458,7 +468,7 @@ class Run:
             elif k == "try":
                 try:
                     self.stmts(st["body"])
-                except (Boom, TypeError, ValueError, RuntimeError):
+                except LEAVES_BLOCKS + (TypeError, ValueError, RuntimeError):
                     self.ctx.count("exceptions_caught_by_try")
 
 
@@ -490,7 +500,7 @@ def run_case(ctx, prog, inject_at, recorder_raise_on=None):
     try:
         try:
             run.stmts(prog)
-        except (Boom, TypeError, ValueError, RuntimeError) as e:
+        except LEAVES_BLOCKS + (TypeError, ValueError, RuntimeError) as e:
             outcome = type(e).__name__
         hook_at_quiescence = sys.displayhook
     finally:
